@@ -109,8 +109,8 @@ impl<'a> Session<'a> {
             return;
         }
         let q = self.q.as_mut().unwrap();
-        let notes: Vec<Note> = ns.iter().map(|n| Note::from(*n)).collect();
         let r = guarded(|| {
+            let notes: Vec<Note> = ns.iter().map(|n| Note::from(*n)).collect();
             if op == "al" {
                 q.allow(&notes)
             } else {
